@@ -37,7 +37,8 @@ theorem simReg_none {c : Cfg α} {s : SV α} (h : WF c s) : SimReg c s none :=
 theorem sim_init (c : Cfg α) : Sim c (Mach.init c) SpecM.init := by
   have h : Abs c { loc := freshLoc c, heap := none, size := 0 } [] :=
     ⟨freshLoc_length c, freshLoc_noRaw c, rfl, fun _ => NoRaw.nil,
-      ⟨freshLoc c, by simp [SV.buf], fun htv => by simpa [SV.isLocal] using freshLoc_noRaw c htv⟩⟩
+      ⟨freshLoc c, by simp [SV.buf], fun htv => by simpa [SV.isLocal] using freshLoc_noRaw c htv⟩,
+      by simp [SV.cap]⟩
   exact ⟨simReg_some h, simReg_some h⟩
 
 @[simp] theorem mach_get_put_same (m : Mach α) (r : Bool) (s : SV α) : (m.put r s).get r = s := by
@@ -46,10 +47,10 @@ theorem sim_init (c : Cfg α) : Sim c (Mach.init c) SpecM.init := by
   cases r <;> rfl
 
 /-- the step lemma -/
-theorem step_sim [DecidableEq α] {c : Cfg α} (hg : ∀ n, n < c.growth n) (lt : α → α → Bool) {m : Mach α}
+theorem step_sim {c : Cfg α} (hg : ∀ n, n < c.growth n) (eq lt : α → α → Bool) {m : Mach α}
     {sp : SpecM α} (h : Sim c m sp) (r : Bool) (op : Op α) (sp' : SpecM α) (o : Obs α)
-    (hs : specStep c lt sp r op = some (sp', o)) :
-    ∃ m', step c lt m r op = .ok (m', o) ∧ Sim c m' sp' := by
+    (hs : specStep c eq lt sp r op = some (sp', o)) :
+    ∃ m', step c eq lt m r op = .ok (m', o) ∧ Sim c m' sp' := by
   have hx := h.get r
   have hy := h.get (!r)
   have hdx := dtor_spec hx.1
@@ -163,7 +164,7 @@ theorem step_sim [DecidableEq α] {c : Cfg α} (hg : ∀ n, n < c.growth n) (lt 
       by_cases hp : pos ≤ l.length
       · simp only [hp, if_true, Option.some.injEq, Prod.mk.injEq] at hs
         obtain ⟨rfl, rfl⟩ := hs
-        obtain ⟨s', h1, h2⟩ := insert_spec (hx.2 l hl) pos xs hp
+        obtain ⟨s', h1, h2⟩ := insertR_spec (hx.2 l hl) pos xs hp
         exact ⟨m.put r s', by simp only [step, h1, bind, Except.bind, pure, Except.pure],
           h.put r (simReg_some h2)⟩
       · simp [hp] at hs
@@ -218,7 +219,7 @@ theorem step_sim [DecidableEq α] {c : Cfg α} (hg : ∀ n, n < c.growth n) (lt 
         obtain ⟨rfl, rfl⟩ := hs
         have h1 := getAt_spec (hx.2 l hl) i v hv
         exact ⟨m, by simp only [step, h1, bind, Except.bind, pure, Except.pure], h⟩
-  | cmpEq =>
+  | cmp k =>
     simp only [specStep] at hs
     cases hl : sp.get r with
     | none => rw [hl] at hs; simp at hs
@@ -229,9 +230,9 @@ theorem step_sim [DecidableEq α] {c : Cfg α} (hg : ∀ n, n < c.growth n) (lt 
         rw [hl, hl2] at hs
         simp only [Option.some.injEq, Prod.mk.injEq] at hs
         obtain ⟨rfl, rfl⟩ := hs
-        have h1 := svEq_spec (hx.2 lx hl) (hy.2 ly hl2)
+        have h1 := svCmp_spec eq lt k (hx.2 lx hl) (hy.2 ly hl2)
         exact ⟨m, by simp only [step, h1, bind, Except.bind, pure, Except.pure], h⟩
-  | cmpLt =>
+  | cmpMixed S2 k flip =>
     simp only [specStep] at hs
     cases hl : sp.get r with
     | none => rw [hl] at hs; simp at hs
@@ -242,13 +243,158 @@ theorem step_sim [DecidableEq α] {c : Cfg α} (hg : ∀ n, n < c.growth n) (lt 
         rw [hl, hl2] at hs
         simp only [Option.some.injEq, Prod.mk.injEq] at hs
         obtain ⟨rfl, rfl⟩ := hs
-        have h1 := svLt_spec lt (hx.2 lx hl) (hy.2 ly hl2)
+        -- the temporary small_vector<T, S2>
+        obtain ⟨t0, ht0, ha0⟩ := build_spec ({ c with S := S2 } : Cfg α) (List.replicate 0 c.dflt)
+        obtain ⟨t, ht, hat⟩ := insert_spec ha0 0 ly (by simp)
+        have hat' : Abs ({ c with S := S2 } : Cfg α) t ly := by simpa using hat
+        have hd := dtor_spec hat'.wf
+        have hc := contents_ok (hy.2 ly hl2)
+        refine ⟨m, ?_, h⟩
+        cases flip with
+        | true =>
+          have h1 := svCmp_spec eq lt k hat' (hx.2 lx hl)
+          simp only [step, hc, ctorN, ht0, ht, h1, hd, if_true, bind, Except.bind, pure, Except.pure]
+        | false =>
+          have h1 := svCmp_spec eq lt k (hx.2 lx hl) hat'
+          simp only [step, hc, ctorN, ht0, ht, h1, hd, if_false, Bool.false_eq_true, bind, Except.bind, pure,
+            Except.pure]
+  | front =>
+    simp only [specStep] at hs
+    cases hl : sp.get r with
+    | none => rw [hl] at hs; cases hs
+    | some l =>
+      rw [hl] at hs
+      cases hv : l[0]? with
+      | none => simp [hv] at hs
+      | some v =>
+        simp only [hv, Option.some.injEq, Prod.mk.injEq] at hs
+        obtain ⟨rfl, rfl⟩ := hs
+        have h1 := frontAt_spec (hx.2 l hl) v hv
         exact ⟨m, by simp only [step, h1, bind, Except.bind, pure, Except.pure], h⟩
+  | back =>
+    simp only [specStep] at hs
+    cases hl : sp.get r with
+    | none => rw [hl] at hs; cases hs
+    | some l =>
+      rw [hl] at hs
+      cases hv : l[l.length - 1]? with
+      | none => simp [hv] at hs
+      | some v =>
+        simp only [hv, Option.some.injEq, Prod.mk.injEq] at hs
+        obtain ⟨rfl, rfl⟩ := hs
+        have h1 := backAt_spec (hx.2 l hl) v hv
+        exact ⟨m, by simp only [step, h1, bind, Except.bind, pure, Except.pure], h⟩
+  | setFront v =>
+    simp only [specStep] at hs
+    cases hl : sp.get r with
+    | none => rw [hl] at hs; cases hs
+    | some l =>
+      rw [hl] at hs
+      by_cases hp : 0 < l.length
+      · simp only [hp, if_true, Option.some.injEq, Prod.mk.injEq] at hs
+        obtain ⟨rfl, rfl⟩ := hs
+        obtain ⟨s', h1, h2⟩ := setFront_spec (hx.2 l hl) v hp
+        exact ⟨m.put r s', by simp only [step, h1, bind, Except.bind, pure, Except.pure],
+          h.put r (simReg_some h2)⟩
+      · simp [hp] at hs
+  | setBack v =>
+    simp only [specStep] at hs
+    cases hl : sp.get r with
+    | none => rw [hl] at hs; cases hs
+    | some l =>
+      rw [hl] at hs
+      by_cases hp : 0 < l.length
+      · simp only [hp, if_true, Option.some.injEq, Prod.mk.injEq] at hs
+        obtain ⟨rfl, rfl⟩ := hs
+        obtain ⟨s', h1, h2⟩ := setBack_spec (hx.2 l hl) v hp
+        exact ⟨m.put r s', by simp only [step, h1, bind, Except.bind, pure, Except.pure],
+          h.put r (simReg_some h2)⟩
+      · simp [hp] at hs
+  | dataAt i =>
+    simp only [specStep] at hs
+    cases hl : sp.get r with
+    | none => rw [hl] at hs; cases hs
+    | some l =>
+      rw [hl] at hs
+      cases hv : l[i]? with
+      | none => simp [hv] at hs
+      | some v =>
+        simp only [hv, Option.some.injEq, Prod.mk.injEq] at hs
+        obtain ⟨rfl, rfl⟩ := hs
+        have h1 := dataAt_spec (hx.2 l hl) i v hv
+        exact ⟨m, by simp only [step, h1, bind, Except.bind, pure, Except.pure], h⟩
+  | setData i v =>
+    simp only [specStep] at hs
+    cases hl : sp.get r with
+    | none => rw [hl] at hs; cases hs
+    | some l =>
+      rw [hl] at hs
+      by_cases hp : i < l.length
+      · simp only [hp, if_true, Option.some.injEq, Prod.mk.injEq] at hs
+        obtain ⟨rfl, rfl⟩ := hs
+        obtain ⟨s', h1, h2⟩ := setData_spec (hx.2 l hl) i v hp
+        exact ⟨m.put r s', by simp only [step, h1, bind, Except.bind, pure, Except.pure],
+          h.put r (simReg_some h2)⟩
+      · simp [hp] at hs
+  | iterFwd =>
+    simp only [specStep] at hs
+    cases hl : sp.get r with
+    | none => rw [hl] at hs; cases hs
+    | some l =>
+      rw [hl] at hs
+      simp only [Option.some.injEq, Prod.mk.injEq] at hs
+      obtain ⟨rfl, rfl⟩ := hs
+      have h1 := iterFwd_spec (hx.2 l hl)
+      exact ⟨m, by simp only [step, h1, bind, Except.bind, pure, Except.pure], h⟩
+  | iterRev =>
+    simp only [specStep] at hs
+    cases hl : sp.get r with
+    | none => rw [hl] at hs; cases hs
+    | some l =>
+      rw [hl] at hs
+      simp only [Option.some.injEq, Prod.mk.injEq] at hs
+      obtain ⟨rfl, rfl⟩ := hs
+      have h1 := iterRev_spec (hx.2 l hl)
+      exact ⟨m, by simp only [step, h1, bind, Except.bind, pure, Except.pure], h⟩
+  | empty =>
+    simp only [specStep] at hs
+    cases hl : sp.get r with
+    | none => rw [hl] at hs; cases hs
+    | some l =>
+      rw [hl] at hs
+      simp only [Option.some.injEq, Prod.mk.injEq] at hs
+      obtain ⟨rfl, rfl⟩ := hs
+      have hsz : l.length = (m.get r).size := by simpa using (hx.2 l hl).size_eq
+      exact ⟨m, by simp only [step, hsz, bind, Except.bind, pure, Except.pure], h⟩
+  | size =>
+    simp only [specStep] at hs
+    cases hl : sp.get r with
+    | none => rw [hl] at hs; cases hs
+    | some l =>
+      rw [hl] at hs
+      simp only [Option.some.injEq, Prod.mk.injEq] at hs
+      obtain ⟨rfl, rfl⟩ := hs
+      have hsz : l.length = (m.get r).size := by simpa using (hx.2 l hl).size_eq
+      exact ⟨m, by simp only [step, hsz, bind, Except.bind, pure, Except.pure], h⟩
+  | capOk =>
+    simp only [specStep] at hs
+    cases hl : sp.get r with
+    | none => rw [hl] at hs; cases hs
+    | some l =>
+      rw [hl] at hs
+      simp only [Option.some.injEq, Prod.mk.injEq] at hs
+      obtain ⟨rfl, rfl⟩ := hs
+      have h1 := capOk_spec (hx.2 l hl)
+      exact ⟨m, by simp only [step, h1, bind, Except.bind, pure, Except.pure], h⟩
+  | maxSize =>
+    simp only [specStep, Option.some.injEq, Prod.mk.injEq] at hs
+    obtain ⟨rfl, rfl⟩ := hs
+    exact ⟨m, by simp only [step, bind, Except.bind, pure, Except.pure], h⟩
 
-theorem run_sim [DecidableEq α] {c : Cfg α} (hg : ∀ n, n < c.growth n) (lt : α → α → Bool)
+theorem run_sim {c : Cfg α} (hg : ∀ n, n < c.growth n) (eq lt : α → α → Bool)
     (ops : List (Bool × Op α)) {m : Mach α} {sp : SpecM α} (h : Sim c m sp) (sp' : SpecM α) (os : List (Obs α))
-    (hs : specRun c lt sp ops = some (sp', os)) :
-    ∃ m', run c lt m ops = .ok (m', os) ∧ Sim c m' sp' := by
+    (hs : specRun c eq lt sp ops = some (sp', os)) :
+    ∃ m', run c eq lt m ops = .ok (m', os) ∧ Sim c m' sp' := by
   induction ops generalizing m sp sp' os with
   | nil =>
     simp only [specRun, Option.some.injEq, Prod.mk.injEq] at hs
@@ -257,18 +403,18 @@ theorem run_sim [DecidableEq α] {c : Cfg α} (hg : ∀ n, n < c.growth n) (lt :
   | cons p rest ih =>
     obtain ⟨r, op⟩ := p
     simp only [specRun] at hs
-    cases h1 : specStep c lt sp r op with
+    cases h1 : specStep c eq lt sp r op with
     | none => rw [h1] at hs; cases hs
     | some q =>
       obtain ⟨sp1, o⟩ := q
       simp only [h1] at hs
-      cases h2 : specRun c lt sp1 rest with
+      cases h2 : specRun c eq lt sp1 rest with
       | none => simp [h2] at hs
       | some q2 =>
         obtain ⟨sp2, os2⟩ := q2
         simp only [h2, Option.some.injEq, Prod.mk.injEq] at hs
         obtain ⟨rfl, rfl⟩ := hs
-        obtain ⟨m1, hm1, hsim1⟩ := step_sim hg lt h r op sp1 o h1
+        obtain ⟨m1, hm1, hsim1⟩ := step_sim hg eq lt h r op sp1 o h1
         obtain ⟨m2, hm2, hsim2⟩ := ih hsim1 sp2 os2 h2
         exact ⟨m2, by simp only [run, hm1, hm2, bind, Except.bind, pure, Except.pure], hsim2⟩
 
